@@ -631,6 +631,74 @@ func c03foreignFor(r *vf.Rand, orig byte, bech32 bool) byte {
 	}
 }
 
+// --- stream: a foreign character and its neighbour.  A decoder that maps a
+// character outside the alphabet to a value above 31 (a table entry of -1 read
+// as 255, a missing range check) feeds its high bits into the NEXT more
+// significant 5-bit slot of the checksum; the string in which the neighbour
+// compensates for exactly that is two substitutions away from a valid one and
+// must be rejected.  All positions x all 7 overflow patterns x b, i, o, 1.
+
+func c03foreignCompensatedCase(c *vf.Ctx, i int) {
+	net := allNets[i%len(allNets)]
+	slp := (i/len(allNets))%2 == 1 && net.P.SlpAddressPrefix != ""
+	prefix := net.P.CashAddressPrefix
+	if slp {
+		prefix = net.P.SlpAddressPrefix
+	}
+	hb := []int{20, 32}[(i/(2*len(allNets)))%2]
+	_, payload := c03codeword(c.R, prefix, hb)
+	// make sure symbols 31 ('l') and 30 occur: the overflow values 255 / 254 keep them
+	for k := 0; k < 3; k++ {
+		_, payload = c03codeword(c.R, prefix, hb)
+		has := false
+		for _, v := range payload {
+			if v == 31 {
+				has = true
+			}
+		}
+		if has {
+			break
+		}
+	}
+	valid := c03string(prefix, payload)
+	upper := i%3 == 2
+	foreign := "bio1"
+	if upper {
+		foreign = "BIO1"
+	}
+	off := len(prefix) + 1
+	c.Nontrivial(vf.HashString(valid))
+	for j := 1; j < len(payload); j++ {
+		for h := byte(1); h <= 7; h++ {
+			for f := 0; f < len(foreign); f++ {
+				b := []byte(valid)
+				b[off+j] = foreign[f]
+				b[off+j-1] = ref.CashCharset[payload[j-1]^h]
+				s := string(b)
+				if upper {
+					s = asciiUpper(valid)
+					bb := []byte(s)
+					bb[off+j] = foreign[f]
+					bb[off+j-1] = asciiUpper(string(ref.CashCharset[payload[j-1]^h]))[0]
+					s = string(bb)
+				}
+				c.Evals(2)
+				var e1, e2 error
+				c.Call("DecodeCashAddress", func() string { return s }, func() { _, _, e1 = bchutil.DecodeCashAddress(s) })
+				if e1 == nil {
+					c.Failf("DecodeCashAddress/undetected-substitution", "weight-2 substitution accepted: valid %q -> corrupted %q (foreign character %q at payload position %d, its left neighbour changed by %d)", valid, s, foreign[f], j, h)
+				}
+				var a bchutil.Address
+				c.Call("DecodeAddress", func() string { return s }, func() { a, e2 = bchutil.DecodeAddress(s, net.P) })
+				if e2 == nil {
+					c.Failf("DecodeAddress/undetected-substitution", "weight-2 substitution accepted on %s: valid %q -> corrupted %q decoded to %v", net.Name, valid, s, a)
+				}
+			}
+		}
+	}
+	c.Inc("addresses_probed_with_foreign_character_and_compensating_neighbour")
+}
+
 // --- stream: nested addresses.  A valid 256-bit address whose payload BEGINS
 // with a complete valid 160-bit address (payload and checksum) of the same
 // prefix and type; two substitutions - the size bits in symbol 1 and ANY byte
@@ -1254,6 +1322,7 @@ func init() {
 			{Name: "cashaddr-blackbox-w1-w2", N: func(t vf.Tier) int { return c03bbOffsets[len(c03bbOffsets)-1] }, Run: c03bbCase, Exhaustive: true},
 			{Name: "cashaddr-blackbox-seeded", N: func(t vf.Tier) int { return t.Sz(40000, 2000000) }, Run: c03randCase},
 			{Name: "cashaddr-few-letters-case", N: func(t vf.Tier) int { return t.Sz(600, 6000) }, Run: c03fewLettersCase},
+			{Name: "cashaddr-foreign-compensated", N: func(t vf.Tier) int { return t.Sz(144, 1440) }, Run: c03foreignCompensatedCase},
 			{Name: "cashaddr-nested", N: func(t vf.Tier) int { return t.Sz(48, 480) }, Run: c03nestedCase},
 			{Name: "cashaddr-near-miss", N: func(t vf.Tier) int { return t.Sz(264, 264*4) }, Run: c03nearCase, Init: c03initNear},
 			{Name: "bech32-syndrome-map", N: func(t vf.Tier) int { return t.Sz(200, 2000) }, Run: c03b32mapCase, Init: c03b32init, Exhaustive: false},
